@@ -375,6 +375,11 @@ def explore_cell(lemma, cell, interp, timeout_ms=10000, max_paths=4000, replay=T
                 res.aborted += 1
         except PyRaise as pr:
             res.errors.append("uncaught interpreted exception in lemma body: %s" % pr)
+        except sym.Undecided as e:
+            # the code no longer has the shape the contract was written for (a loop under contract is gone, an accumulator has
+            # another type ...): the obligation is undecided -- never a verdict; the probes below look for a witness
+            res.undecided.append({"clause": "proof-shape", "reason": str(e)})
+            res.clauses["proof-shape"] = {"status": "undecided", "props": sorted(lemma.props), "n": 1, "ms": 0.0}
         except EngineError as e:
             res.errors.append("engine: %s" % e)
         except RecursionError:
